@@ -61,4 +61,434 @@ theorem x86Go_noconv (e : Bool) (pc : BitVec 32) (st : X86State) (b0 b1 b2 b3 b4
   rw [x86Go, if_neg h', if_neg (by simp [hc])]
   rfl
 
+/-! ### the current mask and how it moves -/
+
+theorem maskShift_succ' : ∀ (n : Nat) (m : BitVec 32), maskShift (n + 1) m = shift1 (maskShift n m) := by
+  intro n
+  induction n with
+  | zero => intro m; rfl
+  | succ k ih => intro m; rw [maskShift, ih]; rfl
+
+theorem maskShift_zero_mask : ∀ (n : Nat), maskShift n 0#32 = 0#32 := by
+  intro n
+  induction n with
+  | zero => rfl
+  | succ k ih => rw [maskShift_succ', ih]; rfl
+
+theorem maskShift_ge4 : ∀ (n : Nat) (m : BitVec 32), 4 ≤ n → maskShift n m = 0#32 := by
+  intro n
+  induction n with
+  | zero => intro m h; omega
+  | succ k ih =>
+    intro m h
+    by_cases hk : 4 ≤ k
+    · rw [maskShift_succ', ih m hk]; rfl
+    · have : k = 3 := by omega
+      subst this
+      simp only [maskShift_succ']
+      exact shift1_4 _
+
+/-- no 2^32 wrap between the last candidate and the end of the buffer -/
+def NoWrap (st : X86State) (pc : BitVec 32) (l : List UInt8) : Prop :=
+  (pc - st.prevPos).toNat + l.length < 2 ^ 32
+
+theorem newMask_zero (pp pc : BitVec 32) : x86NewMask ⟨0#32, pp⟩ pc = 0#32 := by
+  show (if pc - pp > 5#32 then 0#32 else maskShift (pc - pp).toNat 0#32) = 0#32
+  split
+  · rfl
+  · exact maskShift_zero_mask _
+
+/-- moving one byte forward without meeting a candidate shifts the (virtual) mask once -/
+theorem newMask_skip (st : X86State) (pc : BitVec 32) (h : (pc - st.prevPos).toNat + 1 < 2 ^ 32) :
+    x86NewMask st (pc + 1#32) = shift1 (x86NewMask st pc) := by
+  show (if pc + 1#32 - st.prevPos > 5#32 then 0#32 else maskShift (pc + 1#32 - st.prevPos).toNat st.prevMask)
+    = shift1 (if pc - st.prevPos > 5#32 then 0#32 else maskShift (pc - st.prevPos).toNat st.prevMask)
+  simp only [sub_succ]
+  generalize pc - st.prevPos = d at h
+  have hd1 : (d + 1#32).toNat = d.toNat + 1 := by
+    rw [BitVec.toNat_add]; simp only [BitVec.toNat_ofNat]; omega
+  by_cases hgt : d > 5#32
+  · have hgt' : d + 1#32 > 5#32 := by
+      rw [gt_iff_lt, BitVec.lt_def] at hgt ⊢
+      simp only [BitVec.toNat_ofNat] at hgt ⊢
+      omega
+    rw [if_pos hgt, if_pos hgt']
+    rfl
+  · rw [if_neg hgt]
+    have hle : d.toNat ≤ 5 := by
+      rw [gt_iff_lt, BitVec.lt_def] at hgt
+      simp only [BitVec.toNat_ofNat] at hgt
+      omega
+    by_cases h5 : d.toNat = 5
+    · have hgt' : d + 1#32 > 5#32 := by
+        rw [gt_iff_lt, BitVec.lt_def]
+        simp only [BitVec.toNat_ofNat]
+        omega
+      rw [if_pos hgt', h5, maskShift_ge4 5 _ (by omega)]
+      rfl
+    · have hgt' : ¬ d + 1#32 > 5#32 := by
+        rw [gt_iff_lt, BitVec.lt_def]
+        simp only [BitVec.toNat_ofNat]
+        omega
+      rw [if_neg hgt', hd1, maskShift_succ']
+
+theorem newMask_after_noconv (m pc : BitVec 32) : x86NewMask ⟨m, pc⟩ (pc + 1#32) = shift1 m := by
+  show (if pc + 1#32 - pc > 5#32 then 0#32 else maskShift (pc + 1#32 - pc).toNat m) = shift1 m
+  simp only [add1_sub]
+  rw [if_neg (by decide)]
+  rfl
+
+theorem newMask_after_conv (pc : BitVec 32) : x86NewMask ⟨0#32, pc⟩ (pc + 5#32) = 0#32 := newMask_zero _ _
+
+/-! ### the mask invariant -/
+
+/-- `μ` is the mask a candidate at the head of `l` would see. Bit `k` (k = 1,2,3) records a rejected candidate `k` bytes back,
+    whose byte 4 is `l[4-k]`; bit `4+k` records whether that byte was 00/FF when the candidate was examined. -/
+structure MaskOK (μ : BitVec 32) (l : List UInt8) : Prop where
+  b0 : μ.getLsbD 0 = false
+  b4 : μ.getLsbD 4 = false
+  k1 : μ.getLsbD 1 = true → ∀ b, l[3]? = some b → test86 b = μ.getLsbD 5
+  k2 : μ.getLsbD 2 = true → ∀ b, l[2]? = some b → test86 b = μ.getLsbD 6
+  k3 : μ.getLsbD 3 = true → ∀ b, l[1]? = some b → test86 b = μ.getLsbD 7
+
+theorem maskOK_zero (l : List UInt8) : MaskOK 0#32 l :=
+  ⟨by decide, by decide, fun h => by simp at h, fun h => by simp at h, fun h => by simp at h⟩
+
+theorem maskOK_skip {μ : BitVec 32} {b0 : UInt8} {tail : List UInt8} (h : MaskOK μ (b0 :: tail)) : MaskOK (shift1 μ) tail := by
+  obtain ⟨s0, s1, s2, s3, s4, s5, s6, s7⟩ := shift1_bits μ
+  refine ⟨s0, s4, ?_, ?_, ?_⟩
+  · intro hb; rw [s1, h.b0] at hb; cases hb
+  · intro hb b hl; rw [s2] at hb; rw [s6]; exact h.k1 hb b (by simpa using hl)
+  · intro hb b hl; rw [s3] at hb; rw [s7]; exact h.k2 hb b (by simpa using hl)
+
+theorem maskOK_noconv {μ : BitVec 32} {b0 b1 b2 b3 b4 : UInt8} {rest : List UInt8}
+    (h : MaskOK μ (b0 :: b1 :: b2 :: b3 :: b4 :: rest)) : MaskOK (shift1 (noconvMask μ b4)) (b1 :: b2 :: b3 :: b4 :: rest) := by
+  obtain ⟨s0, s1, s2, s3, s4, s5, s6, s7⟩ := shift1_bits (noconvMask μ b4)
+  obtain ⟨o1, o2, o3, o4, o5, o6, o7, o8, o9, o10, o11, o12⟩ := or_bits μ
+  refine ⟨s0, s4, ?_, ?_, ?_⟩
+  · intro _ b hl
+    have hb : b = b4 := by simpa using hl.symm
+    subst hb
+    rw [s5]
+    unfold noconvMask
+    cases ht : test86 b
+    · simp only [Bool.false_eq_true, if_false]; rw [o3, h.b4]
+    · simp only [if_true]; rw [o4]
+  · intro hb b hl
+    rw [s2] at hb; rw [s6]
+    have hb1 : μ.getLsbD 1 = true := by
+      unfold noconvMask at hb; split at hb
+      · rwa [o6] at hb
+      · rwa [o5] at hb
+    have h5 : (noconvMask μ b4).getLsbD 5 = μ.getLsbD 5 := by
+      unfold noconvMask; split
+      · exact o10
+      · exact o9
+    rw [h5]; exact h.k1 hb1 b (by simpa using hl)
+  · intro hb b hl
+    rw [s3] at hb; rw [s7]
+    have hb2 : μ.getLsbD 2 = true := by
+      unfold noconvMask at hb; split at hb
+      · rwa [o8] at hb
+      · rwa [o7] at hb
+    have h6 : (noconvMask μ b4).getLsbD 6 = μ.getLsbD 6 := by
+      unfold noconvMask; split
+      · exact o12
+      · exact o11
+    rw [h6]; exact h.k2 hb2 b (by simpa using hl)
+
+/-- what the encoder preserves: length, first byte, and the 00/FF-ness of every byte recorded in the mask -/
+structure Pres (μ : BitVec 32) (l r : List UInt8) : Prop where
+  len : r.length = l.length
+  hd : r[0]? = l[0]?
+  p1 : μ.getLsbD 1 = true → (r[3]?).map test86 = (l[3]?).map test86
+  p2 : μ.getLsbD 2 = true → (r[2]?).map test86 = (l[2]?).map test86
+  p3 : μ.getLsbD 3 = true → (r[1]?).map test86 = (l[1]?).map test86
+
+theorem pres_refl (μ : BitVec 32) (l : List UInt8) : Pres μ l l := ⟨rfl, rfl, fun _ => rfl, fun _ => rfl, fun _ => rfl⟩
+
+theorem pres_cons {μ μ' : BitVec 32} {b0 : UInt8} {tail r' : List UInt8} (h : Pres μ' tail r')
+    (h12 : μ.getLsbD 1 = true → μ'.getLsbD 2 = true) (h23 : μ.getLsbD 2 = true → μ'.getLsbD 3 = true) :
+    Pres μ (b0 :: tail) (b0 :: r') := by
+  refine ⟨by simp [h.len], rfl, ?_, ?_, ?_⟩
+  · intro hb; simpa using h.p2 (h12 hb)
+  · intro hb; simpa using h.p3 (h23 hb)
+  · intro _; simp [h.hd]
+
+/-! ### NoWrap bookkeeping -/
+
+theorem noWrap_skip {st : X86State} {pc : BitVec 32} {b0 : UInt8} {tail : List UInt8} (h : NoWrap st pc (b0 :: tail)) :
+    NoWrap st (pc + 1#32) tail ∧ (pc - st.prevPos).toNat + 1 < 2 ^ 32 := by
+  unfold NoWrap at *
+  simp only [List.length_cons] at h
+  rw [sub_succ]
+  have hd1 : (pc - st.prevPos + 1#32).toNat = (pc - st.prevPos).toNat + 1 := by
+    rw [BitVec.toNat_add]; simp only [BitVec.toNat_ofNat]; omega
+  rw [hd1]
+  omega
+
+theorem noWrap_len {st : X86State} {pc : BitVec 32} {l : List UInt8} (h : NoWrap st pc l) : l.length < 2 ^ 32 := by
+  unfold NoWrap at h; omega
+
+theorem noWrap_after1 (m pc : BitVec 32) {b0 : UInt8} {tail : List UInt8} (h : (b0 :: tail).length < 2 ^ 32) :
+    NoWrap ⟨m, pc⟩ (pc + 1#32) tail := by
+  unfold NoWrap
+  simp only [add1_sub, List.length_cons] at *
+  show 1 + tail.length < 2 ^ 32
+  omega
+
+theorem noWrap_after5 (pc : BitVec 32) {b0 b1 b2 b3 b4 : UInt8} {rest : List UInt8}
+    (h : (b0 :: b1 :: b2 :: b3 :: b4 :: rest).length < 2 ^ 32) : NoWrap ⟨0#32, pc⟩ (pc + 5#32) rest := by
+  unfold NoWrap
+  simp only [add5_sub, List.length_cons] at *
+  show 5 + rest.length < 2 ^ 32
+  omega
+
+/-- after the clamp at the start of `x86_code` the last candidate is at most 5 bytes back -/
+theorem noWrap_clamp (m pp off : BitVec 32) (x : List UInt8) (hlen : x.length + 5 < 2 ^ 32) :
+    NoWrap ⟨m, if off - pp > 5#32 then off - 5#32 else pp⟩ off x := by
+  unfold NoWrap
+  by_cases hgt : off - pp > 5#32
+  · simp only [if_pos hgt, sub_sub5]
+    show 5 + x.length < 2 ^ 32
+    omega
+  · simp only [if_neg hgt]
+    have : (off - pp).toNat ≤ 5 := by
+      rw [gt_iff_lt, BitVec.lt_def] at hgt
+      simp only [BitVec.toNat_ofNat] at hgt
+      omega
+    omega
+
+theorem convertible_iff (b4 : UInt8) (μ : BitVec 32) :
+    x86Convertible b4 μ = true ↔ test86 b4 = true ∧ ((μ >>> 1) ≤ 4#32 ∧ (μ >>> 1) ≠ 3#32) := by
+  unfold x86Convertible
+  simp only [Bool.and_eq_true, decide_eq_true_eq, and_assoc]
+
+/-- convertibility and the mask update only depend on whether byte 4 is 00/FF -/
+theorem convertible_congr {b c : UInt8} (h : test86 b = test86 c) (μ : BitVec 32) : x86Convertible b μ = x86Convertible c μ := by
+  unfold x86Convertible; rw [h]
+
+theorem noconvMask_congr {b c : UInt8} (h : test86 b = test86 c) (μ : BitVec 32) : noconvMask μ b = noconvMask μ c := by
+  unfold noconvMask; rw [h]
+
+theorem bits_of_2 : (2#32).getLsbD 1 = true ∧ (2#32).getLsbD 2 = false ∧ (2#32).getLsbD 3 = false ∧ (2#32).getLsbD 5 = false := by decide
+theorem bits_of_4 : (4#32).getLsbD 1 = false ∧ (4#32).getLsbD 2 = true ∧ (4#32).getLsbD 3 = false ∧ (4#32).getLsbD 6 = false := by decide
+theorem bits_of_8 : (8#32).getLsbD 1 = false ∧ (8#32).getLsbD 2 = false ∧ (8#32).getLsbD 3 = true ∧ (8#32).getLsbD 7 = false := by decide
+
+/-- Facts about one conversion under the mask invariant (instantiates the word-level loop lemma). -/
+theorem conv_facts {μ pc5 : BitVec 32} {b0 b1 b2 b3 b4 : UInt8} {rest : List UInt8}
+    (hm : MaskOK μ (b0 :: b1 :: b2 :: b3 :: b4 :: rest)) (hc : x86Convertible b4 μ = true) :
+    x86Conv false pc5 μ (x86Conv true pc5 μ b1 b2 b3 b4).1 (x86Conv true pc5 μ b1 b2 b3 b4).2.1
+        (x86Conv true pc5 μ b1 b2 b3 b4).2.2.1 (x86Conv true pc5 μ b1 b2 b3 b4).2.2.2 = (b1, b2, b3, b4)
+    ∧ test86 (x86Conv true pc5 μ b1 b2 b3 b4).2.2.2 = true
+    ∧ (μ.getLsbD 1 = true → test86 (x86Conv true pc5 μ b1 b2 b3 b4).2.2.1 = test86 b3)
+    ∧ (μ.getLsbD 2 = true → test86 (x86Conv true pc5 μ b1 b2 b3 b4).2.1 = test86 b2)
+    ∧ (μ.getLsbD 3 = true → test86 (x86Conv true pc5 μ b1 b2 b3 b4).1 = test86 b1) := by
+  obtain ⟨h4, hrange⟩ := (convertible_iff b4 μ).1 hc
+  have hμ := convertible_mask μ (bit0_and μ hm.b0) hrange
+  have h3 : μ = 2#32 → test86 b3 = false := by
+    intro h; subst h; have := hm.k1 bits_of_2.1 b3 rfl; rw [this]; exact bits_of_2.2.2.2
+  have h2 : μ = 4#32 → test86 b2 = false := by
+    intro h; subst h; have := hm.k2 bits_of_4.2.1 b2 rfl; rw [this]; exact bits_of_4.2.2.2
+  have h1 : μ = 8#32 → test86 b1 = false := by
+    intro h; subst h; have := hm.k3 bits_of_8.2.2.1 b1 rfl; rw [this]; exact bits_of_8.2.2.2
+  obtain ⟨r, r4, r3, r2, r1⟩ := x86_conv_dec_enc pc5 μ b1 b2 b3 b4 hμ h4 h3 h2 h1
+  refine ⟨r, r4, ?_, ?_, ?_⟩
+  · intro hb
+    rcases hμ with h | h | h | h
+    · subst h; simp at hb
+    · rw [r3 h, h3 h]
+    · subst h; rw [bits_of_4.1] at hb; cases hb
+    · subst h; rw [bits_of_8.1] at hb; cases hb
+  · intro hb
+    rcases hμ with h | h | h | h
+    · subst h; simp at hb
+    · subst h; rw [bits_of_2.2.1] at hb; cases hb
+    · rw [r2 h, h2 h]
+    · subst h; rw [bits_of_8.2.1] at hb; cases hb
+  · intro hb
+    rcases hμ with h | h | h | h
+    · subst h; simp at hb
+    · subst h; rw [bits_of_2.2.2.1] at hb; cases hb
+    · subst h; rw [bits_of_4.2.2.1] at hb; cases hb
+    · rw [r1 h, h1 h]
+
+/-! ### Theorem A: the encoder keeps what the mask has recorded -/
+
+theorem x86Go_enc_pres : ∀ (n : Nat) (l : List UInt8) (pc : BitVec 32) (st : X86State), l.length ≤ n → NoWrap st pc l →
+    MaskOK (x86NewMask st pc) l → Pres (x86NewMask st pc) l (x86Go true pc st l).1 := by
+  intro n
+  induction n with
+  | zero => intro l pc st h _ _; rw [x86Go_short _ _ _ _ (by omega)]; exact pres_refl _ _
+  | succ k ih =>
+    intro l pc st h hw hm
+    match l with
+    | [] | [_] | [_, _] | [_, _, _] | [_, _, _, _] => rw [x86Go_short _ _ _ _ (by simp)]; exact pres_refl _ _
+    | b0 :: b1 :: b2 :: b3 :: b4 :: rest =>
+      have hlen : (b1 :: b2 :: b3 :: b4 :: rest).length ≤ k := by simp only [List.length_cons] at h ⊢; omega
+      cases hop : isOpcode b0
+      · rw [x86Go_skip _ _ _ _ _ _ _ _ _ hop]
+        obtain ⟨hw', hlt⟩ := noWrap_skip hw
+        have hμ := newMask_skip st pc hlt
+        have hm' : MaskOK (x86NewMask st (pc + 1#32)) (b1 :: b2 :: b3 :: b4 :: rest) := by rw [hμ]; exact maskOK_skip hm
+        have hp := ih _ (pc + 1#32) st hlen hw' hm'
+        rw [hμ] at hp
+        obtain ⟨_, _, s2, s3, _, _, _, _⟩ := shift1_bits (x86NewMask st pc)
+        exact pres_cons hp (fun hb => by rw [s2]; exact hb) (fun hb => by rw [s3]; exact hb)
+      · cases hc : x86Convertible b4 (x86NewMask st pc)
+        · rw [x86Go_noconv _ _ _ _ _ _ _ _ _ hop hc]
+          have hμ := newMask_after_noconv (noconvMask (x86NewMask st pc) b4) pc
+          have hm' : MaskOK (x86NewMask ⟨noconvMask (x86NewMask st pc) b4, pc⟩ (pc + 1#32)) (b1 :: b2 :: b3 :: b4 :: rest) := by
+            rw [hμ]; exact maskOK_noconv hm
+          have hp := ih _ (pc + 1#32) ⟨noconvMask (x86NewMask st pc) b4, pc⟩ hlen (noWrap_after1 _ pc (noWrap_len hw)) hm'
+          rw [hμ] at hp
+          obtain ⟨_, _, s2, s3, _, _, _, _⟩ := shift1_bits (noconvMask (x86NewMask st pc) b4)
+          obtain ⟨_, _, _, _, o5, o6, o7, o8, _, _, _, _⟩ := or_bits (x86NewMask st pc)
+          refine pres_cons hp ?_ ?_
+          · intro hb; rw [s2]; unfold noconvMask; split
+            · rw [o6]; exact hb
+            · rw [o5]; exact hb
+          · intro hb; rw [s3]; unfold noconvMask; split
+            · rw [o8]; exact hb
+            · rw [o7]; exact hb
+        · rw [x86Go_conv _ _ _ _ _ _ _ _ _ hop hc]
+          obtain ⟨_, _, f3, f2, f1⟩ := conv_facts (pc5 := pc + 5#32) hm hc
+          have hrest : rest.length ≤ k := by simp only [List.length_cons] at h; omega
+          have hp := ih rest (pc + 5#32) ⟨0#32, pc⟩ hrest (noWrap_after5 pc (noWrap_len hw))
+            (by rw [newMask_after_conv]; exact maskOK_zero _)
+          refine ⟨by simp [hp.len], rfl, ?_, ?_, ?_⟩
+          · intro hb; simp [f3 hb]
+          · intro hb; simp [f2 hb]
+          · intro hb; simp [f1 hb]
+
+theorem exists_cons4 (t : List UInt8) (h : 4 ≤ t.length) : ∃ c1 c2 c3 c4 r, t = c1 :: c2 :: c3 :: c4 :: r := by
+  match t, h with
+  | c1 :: c2 :: c3 :: c4 :: r, _ => exact ⟨c1, c2, c3, c4, r, rfl⟩
+
+/-! ### Theorem B: round trip with the state carried identically -/
+
+theorem x86Go_roundtrip : ∀ (n : Nat) (l : List UInt8) (pc : BitVec 32) (st : X86State), l.length ≤ n → NoWrap st pc l →
+    MaskOK (x86NewMask st pc) l →
+    x86Go false pc st (x86Go true pc st l).1 = (l, (x86Go true pc st l).2.1, (x86Go true pc st l).2.2) := by
+  intro n
+  induction n with
+  | zero => intro l pc st h _ _; rw [x86Go_short true pc st l (by omega)]; exact x86Go_short false pc st l (by omega)
+  | succ k ih =>
+    intro l pc st h hw hm
+    match l with
+    | [] | [_] | [_, _] | [_, _, _] | [_, _, _, _] =>
+      rw [x86Go_short true _ _ _ (by simp)]; exact x86Go_short false _ _ _ (by simp)
+    | b0 :: b1 :: b2 :: b3 :: b4 :: rest =>
+      have hlen : (b1 :: b2 :: b3 :: b4 :: rest).length ≤ k := by simp only [List.length_cons] at h ⊢; omega
+      cases hop : isOpcode b0
+      · obtain ⟨hw', hlt⟩ := noWrap_skip hw
+        have hμ := newMask_skip st pc hlt
+        have hm' : MaskOK (x86NewMask st (pc + 1#32)) (b1 :: b2 :: b3 :: b4 :: rest) := by rw [hμ]; exact maskOK_skip hm
+        have hp := x86Go_enc_pres _ _ (pc + 1#32) st (Nat.le_refl _) hw' hm'
+        have hr := ih _ (pc + 1#32) st hlen hw' hm'
+        rw [x86Go_skip _ _ _ _ _ _ _ _ _ hop]
+        obtain ⟨c1, c2, c3, c4, r', hc⟩ := exists_cons4 (x86Go true (pc + 1#32) st (b1 :: b2 :: b3 :: b4 :: rest)).1
+          (by rw [hp.len]; simp)
+        simp only
+        rw [hc] at hr ⊢
+        rw [x86Go_skip _ _ _ _ _ _ _ _ _ hop, hr]
+      · cases hcv : x86Convertible b4 (x86NewMask st pc)
+        · have hμ := newMask_after_noconv (noconvMask (x86NewMask st pc) b4) pc
+          have hm' : MaskOK (x86NewMask ⟨noconvMask (x86NewMask st pc) b4, pc⟩ (pc + 1#32)) (b1 :: b2 :: b3 :: b4 :: rest) := by
+            rw [hμ]; exact maskOK_noconv hm
+          have hw' := noWrap_after1 (noconvMask (x86NewMask st pc) b4) pc (noWrap_len hw)
+          have hp := x86Go_enc_pres _ _ (pc + 1#32) ⟨noconvMask (x86NewMask st pc) b4, pc⟩ (Nat.le_refl _) hw' hm'
+          have hr := ih _ (pc + 1#32) ⟨noconvMask (x86NewMask st pc) b4, pc⟩ hlen hw' hm'
+          rw [x86Go_noconv _ _ _ _ _ _ _ _ _ hop hcv]
+          obtain ⟨c1, c2, c3, c4, r', hc⟩ := exists_cons4
+            (x86Go true (pc + 1#32) ⟨noconvMask (x86NewMask st pc) b4, pc⟩ (b1 :: b2 :: b3 :: b4 :: rest)).1 (by rw [hp.len]; simp)
+          -- the decoder sees the same 00/FF-ness of byte 4
+          have hbit1 : (x86NewMask ⟨noconvMask (x86NewMask st pc) b4, pc⟩ (pc + 1#32)).getLsbD 1 = true := by
+            rw [hμ, (shift1_bits _).2.1]
+            unfold noconvMask; split
+            · exact (or_bits _).2.1
+            · exact (or_bits _).1
+          have ht : test86 c4 = test86 b4 := by
+            have := hp.p1 hbit1
+            rw [hc] at this
+            simpa using this
+          simp only
+          rw [hc] at hr ⊢
+          have hcv' : x86Convertible c4 (x86NewMask st pc) = false := by rw [convertible_congr ht]; exact hcv
+          rw [x86Go_noconv _ _ _ _ _ _ _ _ _ hop hcv', noconvMask_congr ht, hr]
+        · obtain ⟨f, f4, _, _, _⟩ := conv_facts (pc5 := pc + 5#32) hm hcv
+          have hrest : rest.length ≤ k := by simp only [List.length_cons] at h; omega
+          have hr := ih rest (pc + 5#32) ⟨0#32, pc⟩ hrest (noWrap_after5 pc (noWrap_len hw))
+            (by rw [newMask_after_conv]; exact maskOK_zero _)
+          rw [x86Go_conv _ _ _ _ _ _ _ _ _ hop hcv]
+          simp only
+          have hcv' : x86Convertible (x86Conv true (pc + 5#32) (x86NewMask st pc) b1 b2 b3 b4).2.2.2 (x86NewMask st pc) = true := by
+            rw [convertible_iff] at hcv ⊢; exact ⟨f4, hcv.2⟩
+          rw [x86Go_conv _ _ _ _ _ _ _ _ _ hop hcv', f, hr]
+
+/-! ### chunk stability of the main loop (state and position carried) -/
+
+/-- the right-hand side of the chunk law -/
+def x86Chunked (e : Bool) (pc : BitVec 32) (st : X86State) (a b : List UInt8) : List UInt8 × Nat × X86State :=
+  let r1 := x86Go e pc st a
+  let r2 := x86Go e (pc + BitVec.ofNat 32 r1.2.1) r1.2.2 (r1.1.drop r1.2.1 ++ b)
+  (r1.1.take r1.2.1 ++ r2.1, r1.2.1 + r2.2.1, r2.2.2)
+
+theorem x86Chunked_short (e : Bool) (pc : BitVec 32) (st : X86State) (a b : List UInt8) (h : a.length < 5) :
+    x86Chunked e pc st a b = x86Go e pc st (a ++ b) := by
+  unfold x86Chunked
+  rw [x86Go_short e pc st a h]
+  simp
+
+theorem x86Chunked_step (e : Bool) (pc : BitVec 32) (st st' : X86State) (k : Nat) (pre a' a b : List UInt8)
+    (h : x86Go e pc st a = (pre ++ (x86Go e (pc + BitVec.ofNat 32 k) st' a').1, (x86Go e (pc + BitVec.ofNat 32 k) st' a').2.1 + k,
+      (x86Go e (pc + BitVec.ofNat 32 k) st' a').2.2)) (hk : pre.length = k) :
+    x86Chunked e pc st a b =
+      (pre ++ (x86Chunked e (pc + BitVec.ofNat 32 k) st' a' b).1, (x86Chunked e (pc + BitVec.ofNat 32 k) st' a' b).2.1 + k,
+       (x86Chunked e (pc + BitVec.ofNat 32 k) st' a' b).2.2) := by
+  unfold x86Chunked
+  rw [h]
+  simp only
+  have e1 : pc + BitVec.ofNat 32 ((x86Go e (pc + BitVec.ofNat 32 k) st' a').2.1 + k)
+      = pc + BitVec.ofNat 32 k + BitVec.ofNat 32 (x86Go e (pc + BitVec.ofNat 32 k) st' a').2.1 := by
+    rw [BitVec.ofNat_add, BitVec.add_assoc, BitVec.add_comm (BitVec.ofNat 32 _)]
+  rw [e1]
+  have t1 : ∀ (m : Nat) (r : List UInt8), (pre ++ r).take (m + k) = pre ++ r.take m := by
+    intro m r; rw [List.take_append, hk]; simp [List.take_of_length_le (by omega : pre.length ≤ m + k)]
+  have d1 : ∀ (m : Nat) (r : List UInt8), (pre ++ r).drop (m + k) = r.drop m := by
+    intro m r; rw [List.drop_append, hk]; simp [List.drop_of_length_le (by omega : pre.length ≤ m + k)]
+  rw [t1, d1, List.append_assoc]
+  congr 1
+  congr 1
+  omega
+
+theorem x86Go_chunk (e : Bool) : ∀ (n : Nat) (a b : List UInt8) (pc : BitVec 32) (st : X86State), a.length ≤ n →
+    x86Go e pc st (a ++ b) = x86Chunked e pc st a b := by
+  intro n
+  induction n with
+  | zero => intro a b pc st h; exact (x86Chunked_short e pc st a b (by omega)).symm
+  | succ k ih =>
+    intro a b pc st h
+    match a with
+    | [] | [_] | [_, _] | [_, _, _] | [_, _, _, _] => exact (x86Chunked_short e pc st _ b (by simp)).symm
+    | b0 :: b1 :: b2 :: b3 :: b4 :: rest =>
+      have hlen : (b1 :: b2 :: b3 :: b4 :: rest).length ≤ k := by simp only [List.length_cons] at h ⊢; omega
+      have hrest : rest.length ≤ k := by simp only [List.length_cons] at h; omega
+      simp only [List.cons_append]
+      cases hop : isOpcode b0
+      · rw [x86Chunked_step e pc st st 1 [b0] (b1 :: b2 :: b3 :: b4 :: rest) _ b (x86Go_skip _ _ _ _ _ _ _ _ _ hop) rfl,
+          x86Go_skip _ _ _ _ _ _ _ _ _ hop, ← ih _ b _ _ hlen]
+        rfl
+      · cases hc : x86Convertible b4 (x86NewMask st pc)
+        · rw [x86Chunked_step e pc st ⟨noconvMask (x86NewMask st pc) b4, pc⟩ 1 [b0] (b1 :: b2 :: b3 :: b4 :: rest) _ b
+              (x86Go_noconv _ _ _ _ _ _ _ _ _ hop hc) rfl,
+            x86Go_noconv _ _ _ _ _ _ _ _ _ hop hc, ← ih _ b _ _ hlen]
+          rfl
+        · rw [x86Chunked_step e pc st ⟨0#32, pc⟩ 5 (b0 :: (x86Conv e (pc + 5#32) (x86NewMask st pc) b1 b2 b3 b4).1
+                :: (x86Conv e (pc + 5#32) (x86NewMask st pc) b1 b2 b3 b4).2.1 :: (x86Conv e (pc + 5#32) (x86NewMask st pc) b1 b2 b3 b4).2.2.1
+                :: [(x86Conv e (pc + 5#32) (x86NewMask st pc) b1 b2 b3 b4).2.2.2]) rest _ b
+              (x86Go_conv _ _ _ _ _ _ _ _ _ hop hc) rfl,
+            x86Go_conv _ _ _ _ _ _ _ _ _ hop hc, ← ih _ b _ _ hrest]
+          rfl
+
 end XzVerif.Bcj
